@@ -293,6 +293,16 @@ def pinned_owner(P, f, hops=3):
     return owner
 
 
+def desugared(P, fv):
+    """the view with Option / Result / bool combinators rewritten into the matches they stand for (closure bodies spliced in); cached"""
+    from . import inline as I
+    cache = P.__dict__.setdefault("_desugared", {})
+    k = id(fv)
+    if k not in cache:
+        cache[k] = (fv, I.desugar(P, fv))
+    return cache[k][1]
+
+
 def view(P, f, keep=None, hold=None):
     """f with local helper functions inlined (cached).
     keep = regex of callees the rule wants to keep as calls: everything else that is helper-like is inlined.
